@@ -85,10 +85,9 @@ def _lock_false(cond, pol, flag, prog, depth=0):
         g = prog.functions.get(c.callee.get("usr"))
         if g is not None:
             rets = [x for x in g.walk() if x.k == "ReturnStmt" and x.c]
-            if len(rets) == 1:
-                e = rets[0].c[0].strip_all()
-                if e.k == "MemberExpr" and e.decl and e.decl.get("n") == flag:
-                    return pol is False
+            if len(rets) == 1 and depth < 3:
+                # an accessor / predicate over the flag: is_locked() { return _locked; }   _adapting() { return !_locked; }
+                return any(_lock_false(a, p2, flag, prog, depth + 1) for (a, p2) in atoms_of(rets[0].c[0], pol))
     cmp_ = as_comparison(c)
     if cmp_ is not None:
         lhs, op, rhs = cmp_
@@ -378,7 +377,44 @@ def _find_clamps(f, gain, ceil):
                 args = r.call_args()
                 if len(args) == 2 and ((_is_field(args[0], gain) and _is_field(args[1], ceil)) or (_is_field(args[1], gain) and _is_field(args[0], ceil))):
                     out.append(n)
+            elif r.k == "CallExpr" and r.callee and r.callee.get("repo") and _L2_PROG is not None:
+                # gain = _update_gain(agc, gain, power): a helper every one of whose returns hands back a clamped value
+                g = _L2_PROG.functions.get(r.callee.get("usr"))
+                if g is not None and g.usr != f.usr and _returns_clamped(g, ceil):
+                    out.append(n)
     return out
+
+
+_L2_PROG = None
+
+
+def _returns_clamped(g, ceil):
+    """every return of g yields std::min(v, ceil), or a variable v that has been through the clamp on every path to the return"""
+    rets = [r for r in g.walk() if r.k == "ReturnStmt" and r.c and not any(a.k == "LambdaExpr" for a in r.ancestors())]
+    if not rets:
+        return False
+    g.blocks
+    for r in rets:
+        e = r.c[0].strip_all()
+        while e.k in ("CXXConstructExpr", "MaterializeTemporaryExpr", "ImplicitCastExpr") and len(e.c) == 1:
+            e = e.c[0].strip_all()
+        if e.k == "CallExpr" and e.callee and e.callee.get("qn") in ("std::min", "dsplib::min", "fmin", "std::fmin"):
+            args = e.call_args()
+            if len(args) == 2 and (_is_field(args[0], ceil) or _is_field(args[1], ceil)):
+                continue
+            return False
+        if e.k == "DeclRefExpr" and e.decl and e.decl.get("k") in ("local", "parm"):
+            var = ("local", e.decl["id"], e.decl.get("n"))
+            clamps = _find_clamps(g, var, ceil)
+            cnodes = [(c.role("cond") if c.k == "IfStmt" else c) for c in clamps]
+            if not any(c is not None and g.precedes(c, r) for c in cnodes):
+                return False
+            v = _l2_core(g, var, ceil, False, lambda n: False)
+            if v[0] != DISCHARGED:
+                return False
+            continue
+        return False
+    return True
 
 
 def _l2_core(f, gain, ceil, check_exit, skip_write):
@@ -471,6 +507,8 @@ def rule_L2(prog, fixture=False):
     res = RuleResult("L2", "wherever the AGC's gain state is updated, every path from the update to a use of the gain or to the end of "
                            "the updating function passes the clamp against max_gain (so the state is clamped whenever it is visible)")
     gain, ceil = L2_STATE
+    global _L2_PROG
+    _L2_PROG = prog
 
     def is_agc_field(n, name):
         n = n.strip_all()
